@@ -30,6 +30,7 @@ def units(tier):
     return [
         SL("slice.x2_feeder_error_vs_dispatch", "x2_feeder_error_vs_dispatch", 26),
     ] + ([SL("slice.x2_feeder_error_vs_dispatch.n3", "x2_feeder_error_vs_dispatch", 38, params={"n": 3})] if big else []) + [
+        H("C04", "lokyverif.harness.c15_reduction", "check_simple_queue_put", t, ["loky.backend.queues:SimpleQueue.put"], "result path: one message, under the write lock, lock free after a failed send"),
         H("C04", M, "check_feed", t, ["loky.backend.queues:Queue._feed"], "<=4 items then sentinel, outcome per item in {ok, dumps raises, send raises}"),
         H("C04", M, "check_feeder_error", t, [PE + "_SafeQueue._on_queue_feeder_error"], "ids 0..2, arbitrary pending/running subsets (failed id running), both error kinds"),
         H("C04", M, "check_worker_contains_3" if big else "check_worker_contains_2", 1500 if big else 300,
